@@ -22,6 +22,9 @@ Proof.
   split; [exact HI|split; [exact HI'|split; [exact TL|split; [exact PL|exact CV]]]].
 Qed.
 
+Lemma Forall2_weaken : forall {A B} (R R' : A -> B -> Prop) l l', (forall a b, R a b -> R' a b) -> Forall2 R l l' -> Forall2 R' l l'.
+Proof. intros A B R R' l l' H F. induction F; constructor; auto. Qed.
+
 (* every transaction of the batch, with the intermediate database it ran against *)
 Definition ran (d d' : db) (x : list command * list (option (list string))) (rs : list result) : Prop :=
   exists dx dx', Mid d dx /\ exec_txn dx (fst x) (snd x) = Some (dx', rs) /\ Mid dx dx' /\ Mid dx' d'.
@@ -34,12 +37,11 @@ Proof.
   - inversion H; subst. split; [apply Mid_refl; exact HI|constructor].
   - inversion Ht as [|? ? H1 H2]; subst. destruct (exec_txn d cs hs) as [[d1 rs]|] eqn:E; [|discriminate].
     destruct (exec_batch d1 txns) as [[d2 rss2]|] eqn:E2; [|discriminate]. inversion H; subst. cbn in H1.
-    pose proof (txn_Mid _ _ _ _ _ H1 HI E) as M1. destruct M1 as (_&HI1&_) eqn:EM.
+    pose proof (txn_Mid _ _ _ _ _ H1 HI E) as M1'. pose proof (proj1 (proj2 M1')) as HI1.
     destruct (IH d1 d' rss2 H2 HI1 E2) as [M2 R2].
-    pose proof (txn_Mid _ _ _ _ _ H1 HI E) as M1'.
     split; [eapply Mid_trans; eassumption|]. constructor.
     + exists d, d1. cbn. split; [apply Mid_refl; exact HI|split; [exact E|split; [exact M1'|exact M2]]].
-    + eapply Forall2_impl; [|exact R2]. intros x r [dx [dx' [A [B [C D]]]]]. exists dx, dx'.
+    + eapply Forall2_weaken; [|exact R2]. intros x r [dx [dx' [A [B [C D]]]]]. exists dx, dx'.
       split; [eapply Mid_trans; eassumption|tauto].
 Qed.
 
